@@ -24,12 +24,20 @@
     repaired defects   binsize_repaired / binsize_legacy_counterexample (F12),
                        inbox_case_repaired / inbox_case_legacy_counterexample (F29)
 
-  Partial: COPYUID and ESEARCH are proved for number sets in canonical form (what `imap.UIDSet.AddNum/AddRange`
-  build); for arbitrary range lists the oracle checks membership on every run.
+    ENVELOPE           resp_fidelity_envelope, resp_fidelity_envelope_nil, envelope_item_fidelity
+    BODY/BODYSTRUCTURE resp_fidelity_bodystructure (trees of arbitrary depth, extended and non-extended),
+                       resp_fidelity_bodystructure_fuel, bodystructure_item_fidelity
+    LIST-STATUS        resp_fidelity_list_status (end to end)
+    arbitrary sets     resp_fidelity_copy_any, resp_fidelity_move_any, resp_fidelity_esearch_any (any list of
+                       static ranges, via C15 parse_sound: the delivered set has the same members)
 
-  Missing (validated by the byte-for-byte / delivery correspondence of Model/RespBody.lean and by the oracle only):
-    ENVELOPE and BODY/BODYSTRUCTURE round trips; LIST with RETURN (STATUS) as one end-to-end statement (its
-    three ingredients list_line_fidelity, status line, list_status_routing are proved); CAPABILITY.
+  Assumed, not proved (below the modelled interface): `mime.QEncoding.Encode` / `WordDecoder.DecodeHeader` enter the
+  ENVELOPE / BODYSTRUCTURE theorems as tables with the hypothesis `qdec (qenc s) = s` (`QOK`, `QRaw`; false exactly
+  for the look-alikes of known finding F22); Go's `time` package supplies the broken-down fields (`DateOK`).
+
+  Missing: CAPABILITY (oracle only); a FETCH-command-level statement that mixes ENVELOPE/BODYSTRUCTURE items with the
+  other item kinds in one message (the item-level theorems for both groups are proved; the mixed `decList` assembly
+  over `readItemQ` is validated by the byte-for-byte / delivery correspondence).
 -/
 import GoImap.Lemmas.RespAssemble
 import GoImap.Lemmas.RespLines
@@ -43,6 +51,10 @@ import GoImap.Lemmas.RespStatus
 import GoImap.Lemmas.RespList
 import GoImap.Lemmas.RespFetch
 import GoImap.Lemmas.RespSelect
+import GoImap.Lemmas.RespListStatus
+import GoImap.Lemmas.RespAnySets
+import GoImap.Lemmas.RespEnvelope
+import GoImap.Lemmas.RespBodyAll
 import GoImap.Spec.RespGrammar
 namespace GoImap.C03
 open GoImap.Resp
@@ -135,6 +147,101 @@ theorem resp_fidelity_fetch (cfg : Cfg) (uidMode : Bool) (reqExt : Option Bool) 
   exact deliverFetchAux_distinct uidMode tag (asc "OK") Code.none (RespSpec.canonMsgs ms) []
     (fun m hm => ⟨hkey m hm, by simp⟩) hnd
 
+/-! ## ENVELOPE
+
+`mime.QEncoding.Encode` / `WordDecoder.DecodeHeader` are below the modelled interface: they enter as the
+tables `enc`, `dec`, and `EnvOK` assumes of them what DESIGN §5.3 records (`qdec (qenc s) = s` for the
+subject and the address names — `QOK`; false exactly for the look-alikes of known finding F22). -/
+
+/-- ENVELOPE: date (as the server writes it, same instant and zone, whole seconds), subject, the six address
+    lists (an absent sender / reply-to is the from list; nil and empty lists coincide), in-reply-to and
+    message-id are read back as the canonical envelope -/
+theorem resp_fidelity_envelope (utf8 : Bool) (enc dec : QTab) (e : Envelope) (t rest : Str)
+    (h : EnvOK enc dec e) (hp : printEnvelope utf8 enc (some e) = some t) :
+    readEnvelope dec (t ++ rest) = some (RespSpec.canonEnvelope e, rest) :=
+  envelope_fidelity utf8 enc dec e t rest h hp
+
+/-- a nil `*imap.Envelope` is written and read as the empty envelope -/
+theorem resp_fidelity_envelope_nil (utf8 : Bool) (enc dec : QTab) (t rest : Str) (hp : printEnvelope utf8 enc none = some t) :
+    readEnvelope dec (t ++ rest) = some (RespSpec.emptyEnvelope, rest) :=
+  envelope_fidelity_nil utf8 enc dec t rest hp
+
+/-- the ENVELOPE message data item of a FETCH response -/
+theorem envelope_item_fidelity (utf8 : Bool) (enc dec : QTab) (o : Option Envelope) (t r : Str)
+    (h : ∀ e, o = some e → EnvOK enc dec e) (hp : printItemQ utf8 enc (Item.env o) = some t) :
+    readItemQ dec (t ++ r) = some (RespSpec.canonItem (Item.env o), r) := by
+  simp only [printItemQ, Option.map_eq_some_iff] at hp
+  obtain ⟨et, het, rfl⟩ := hp
+  obtain ⟨c, hc, hread⟩ := envelope_fidelity_opt utf8 enc dec o et r h het
+  obtain ⟨u, hu⟩ := env_printEnvelope_head utf8 enc o et het
+  have hspan : spanB isMsgAttNameChar (asc "ENVELOPE " ++ et ++ r) = (asc "ENVELOPE", 32 :: (et ++ r)) := by
+    have := spanB_append isMsgAttNameChar (asc "ENVELOPE") (32 :: (et ++ r)) (by decide) (StopsAt.cons _ (by decide))
+    simpa [asc, List.append_assoc] using this
+  have hsp : expectSP (32 :: (et ++ r)) = some (et ++ r) := by
+    rw [hu]; exact expectSP_sp 40 (u ++ r) (by decide) (by decide)
+  unfold readItemQ
+  rw [hspan]
+  have hE : asc "ENVELOPE" = 69 :: [78, 86, 69, 76, 79, 80, 69] := by decide
+  have hname : toUpper (69 :: [78, 86, 69, 76, 79, 80, 69]) = 69 :: [78, 86, 69, 76, 79, 80, 69] := by decide
+  rw [hE]
+  simp only [hname, if_true, hsp, Option.bind_some, hread, Option.map_some, RespSpec.canonItem, hc]
+
+/-! ## BODY / BODYSTRUCTURE -/
+
+/-- BODY / BODYSTRUCTURE, trees of arbitrary depth: single parts, text parts with their line count,
+    message/rfc822 parts with their envelope, nested body and line count, multiparts with ≥ 1 child, in the
+    non-extended (`ext = false`: no extension data delivered) and the extended form; parameter lists come back as
+    maps with lower-cased keys, the encoding upper-cased with default 7BIT, nested envelopes canonical.
+    `BodyOK` carries the assumptions about the Q-decoding tables (descriptions and parameter values are not
+    encoded-word look-alikes), literal lengths and integer widths; the fuel the client's reader gets for a
+    response (`length + 1`) always suffices (`bt_fuel_le`). -/
+theorem resp_fidelity_bodystructure (utf8 : Bool) (enc dec : QTab) (ext : Bool) (b : Body) (t r : Str)
+    (hwf : RespSpec.wfBody ext b = true) (hok : BodyOK utf8 enc dec ext b) (hp : printBody utf8 enc ext b = some t) :
+    readBody dec ((t ++ r).length + 1) (t ++ r) = some (RespSpec.canonBody ext b, r) :=
+  bt_body_fidelity_top (bodyPieces utf8 enc dec) ext b hwf hok t r hp
+
+/-- the same for any sufficient fuel (the nesting cap of the reader) -/
+theorem resp_fidelity_bodystructure_fuel (utf8 : Bool) (enc dec : QTab) (ext : Bool) (b : Body) (t r : Str) (fuel : Nat)
+    (hwf : RespSpec.wfBody ext b = true) (hok : BodyOK utf8 enc dec ext b) (hp : printBody utf8 enc ext b = some t)
+    (hfuel : bt_fuel b ≤ fuel) :
+    readBody dec fuel (t ++ r) = some (RespSpec.canonBody ext b, r) :=
+  bt_body_fidelity (bodyPieces utf8 enc dec) ext b hwf hok t r hp fuel hfuel
+
+/-- the BODYSTRUCTURE (extended) / BODY (non-extended) message data item of a FETCH response -/
+theorem bodystructure_item_fidelity (utf8 : Bool) (enc dec : QTab) (ext : Bool) (b : Body) (t r : Str)
+    (hwf : RespSpec.wfBody ext b = true) (hok : BodyOK utf8 enc dec ext b) (hp : printItemQ utf8 enc (Item.bs ext b) = some t) :
+    readItemQ dec (t ++ r) = some (RespSpec.canonItem (Item.bs ext b), r) := by
+  simp only [printItemQ, Option.map_eq_some_iff] at hp
+  obtain ⟨bt, hbt, rfl⟩ := hp
+  have hread := bt_body_fidelity_top (bodyPieces utf8 enc dec) ext b hwf hok bt r hbt
+  obtain ⟨u, hu⟩ := bt_printBody_head utf8 enc ext b bt hbt
+  have hsp : expectSP (32 :: (bt ++ r)) = some (bt ++ r) := by rw [hu]; exact expectSP_sp 40 (u ++ r) (by decide) (by decide)
+  cases ext with
+  | true =>
+    have hspan : spanB isMsgAttNameChar (asc "BODYSTRUCTURE " ++ bt ++ r) = (asc "BODYSTRUCTURE", 32 :: (bt ++ r)) := by
+      have := spanB_append isMsgAttNameChar (asc "BODYSTRUCTURE") (32 :: (bt ++ r)) (by decide) (StopsAt.cons _ (by decide))
+      simpa [asc, List.append_assoc] using this
+    have hE : asc "BODYSTRUCTURE" = 66 :: [79, 68, 89, 83, 84, 82, 85, 67, 84, 85, 82, 69] := by decide
+    have hname : toUpper (66 :: [79, 68, 89, 83, 84, 82, 85, 67, 84, 85, 82, 69]) = 66 :: [79, 68, 89, 83, 84, 82, 85, 67, 84, 85, 82, 69] := by decide
+    have hne : ¬ ((66 :: [79, 68, 89, 83, 84, 82, 85, 67, 84, 85, 82, 69] : Str) = asc "ENVELOPE") := by decide
+    show readItemQ dec (asc "BODYSTRUCTURE " ++ bt ++ r) = _
+    unfold readItemQ
+    rw [hspan, hE]
+    simp only [hname, hne, if_false, if_true, hsp, Option.bind_some, hread, Option.map_some, RespSpec.canonItem]
+  | false =>
+    have hspan : spanB isMsgAttNameChar (asc "BODY " ++ bt ++ r) = (asc "BODY", 32 :: (bt ++ r)) := by
+      have := spanB_append isMsgAttNameChar (asc "BODY") (32 :: (bt ++ r)) (by decide) (StopsAt.cons _ (by decide))
+      simpa [asc, List.append_assoc] using this
+    have hE : asc "BODY" = 66 :: [79, 68, 89] := by decide
+    have hname : toUpper (66 :: [79, 68, 89]) = 66 :: [79, 68, 89] := by decide
+    have hne1 : ¬ ((66 :: [79, 68, 89] : Str) = asc "ENVELOPE") := by decide
+    have hne2 : ¬ ((66 :: [79, 68, 89] : Str) = asc "BODYSTRUCTURE") := by decide
+    have hb : ((66 :: [79, 68, 89] : Str) = asc "BODY") = True := eq_true (by decide)
+    show readItemQ dec (asc "BODY " ++ bt ++ r) = _
+    unfold readItemQ
+    rw [hspan, hE]
+    simp only [hname, hne1, hne2, hb, if_false, if_true, hsp, Option.bind_some, hread, Option.map_some, RespSpec.canonItem]
+
 /-! ## LIST -/
 
 /-- one `* LIST …` line (attributes, delimiter, mailbox, CHILDINFO, OLDNAME) is read as the canonical entry -/
@@ -179,6 +286,18 @@ theorem list_status_routing (ds : List (ListData × Option StatusData)) (tag typ
     (hs : ∀ p ∈ ds, p.1.status = none) (hm : ∀ p ∈ ds, ∀ s, p.2 = some s → s.mailbox = p.1.mailbox) :
     deliverList true none (ds.flatMap list_entryEvents ++ [Event.done tag typ code]) = ds.map list_entryData :=
   list_deliver_status ds tag typ code hs hm
+
+/-- LIST with RETURN (STATUS …), end to end: every entry is delivered with the status data the backend
+    attached to it (filtered by the requested items), entries without status data without any -/
+theorem resp_fidelity_list_status (cfg : Cfg) (o : StatusOpts) (ds : List ListData) (bytes tag text : Str)
+    (ht : IsTag tag) (hx : IsText text)
+    (hwf : ∀ d ∈ ds, RespSpec.wfList (some o) d = true)
+    (hlen : ∀ d ∈ ds, d.mailbox.length < 4294967296 ∧ d.oldName.length < 4294967296)
+    (hrange : ∀ d ∈ ds, ∀ s, d.status = some s → StatusInRange s)
+    (hp : printList cfg (some o) ds = some bytes) :
+    (parseAll (bytes ++ (tag ++ asc " OK " ++ text ++ CRLFb))).map (deliverList true none) =
+      some (ds.map (RespSpec.canonList (some o))) :=
+  list_status_fidelity cfg o ds bytes tag text ht hx hwf hlen hrange hp
 
 /-! ## STATUS -/
 
@@ -283,6 +402,43 @@ theorem resp_fidelity_move_none (ex : List Nat) (tag text : Str) (ht : IsTag tag
     (hex : ∀ n ∈ ex, n ≠ 0 ∧ n < 4294967296) (bytes : Str) (hp : printMove none ex = some bytes) :
     (parseAll (bytes ++ (tag ++ asc " OK " ++ text ++ CRLFb))).map deliverMove = some (RespSpec.canonCopy none, ex) :=
   move_none_fidelity ex tag text ht hx hex bytes hp
+
+/-! ## COPYUID / MOVE / ESEARCH with arbitrary (not only canonical) number sets
+
+A backend may hand over any list of static ranges (unsorted, overlapping, reversed); the client's
+`ParseSet` normalises it (C15 `parse_sound`): the delivered set has exactly the same members. -/
+
+theorem resp_fidelity_copy_any (tag text : Str) (ht : IsTag tag) (hx : IsText text) (d : CopyData)
+    (hv : d.uidValidity < 4294967296)
+    (hsne : d.src ≠ []) (hs : any_Static d.src) (hdne : d.dst ≠ []) (hd : any_Static d.dst)
+    (code : Str) (hc : copyCodeText (some d) = some code) :
+    ∃ d', (parseAll (tag ++ asc " OK " ++ code ++ text ++ CRLFb)).map deliverCopy = some d' ∧
+      d'.uidValidity = d.uidValidity ∧
+      (∀ q, 0 < q → q < 4294967296 → NumSet.contains d'.src q = RespSpec.memRanges d.src q) ∧
+      (∀ q, 0 < q → q < 4294967296 → NumSet.contains d'.dst q = RespSpec.memRanges d.dst q) :=
+  any_copy_fidelity tag text ht hx d hv hsne hs hdne hd code hc
+
+theorem resp_fidelity_move_any (d : CopyData) (ex : List Nat) (tag text : Str) (ht : IsTag tag) (hx : IsText text)
+    (hv : d.uidValidity < 4294967296)
+    (hsne : d.src ≠ []) (hs : any_Static d.src) (hdne : d.dst ≠ []) (hd : any_Static d.dst)
+    (hex : ∀ n ∈ ex, n ≠ 0 ∧ n < 4294967296) (bytes : Str) (hp : printMove (some d) ex = some bytes) :
+    ∃ d', (parseAll (bytes ++ (tag ++ asc " OK " ++ text ++ CRLFb))).map deliverMove = some (d', ex) ∧
+      d'.uidValidity = d.uidValidity ∧
+      (∀ q, 0 < q → q < 4294967296 → NumSet.contains d'.src q = RespSpec.memRanges d.src q) ∧
+      (∀ q, 0 < q → q < 4294967296 → NumSet.contains d'.dst q = RespSpec.memRanges d.dst q) :=
+  any_move_fidelity d ex tag text ht hx hv hsne hs hdne hd hex bytes hp
+
+theorem resp_fidelity_esearch_any (cfg : Cfg) (uidMode : Bool) (stag : Str) (o : Option SearchOpts) (d : SearchData) (kind : Bool)
+    (set : NumSet.Set) (tag text : Str) (hst : IsTag stag) (ht : IsTag tag) (hx : IsText text)
+    (hes : isESearch cfg o = true) (hall : d.all = some (kind, set)) (hs : any_Static set)
+    (hmin : d.min < 4294967296) (hmax : d.max < 4294967296) (hcount : d.count < 4294967296) :
+    ∃ b s', printSearch cfg stag o d = some b ∧ NumSet.dynamic s' = false ∧
+      (∀ q, 0 < q → q < 4294967296 → NumSet.contains s' q = RespSpec.memRanges set q) ∧
+      (parseAll (b ++ (tag ++ asc " OK " ++ text ++ CRLFb))).map (deliverSearch uidMode) =
+        some { all := if (searchOpts o).all && !set.isEmpty then some (d.uid, s') else none, uid := d.uid,
+               min := if (searchOpts o).min then d.min else 0, max := if (searchOpts o).max then d.max else 0,
+               count := if (searchOpts o).count then d.count else 0 } :=
+  any_esearch_fidelity cfg uidMode stag o d kind set tag text hst ht hx hes hall hs hmin hmax hcount
 
 /-! ## NAMESPACE -/
 
